@@ -21,6 +21,11 @@ PROBES = [
     ("6/3", 2.0), ("2*3+2j", 2 * (3 + 2j)), ("(2*3) + 2j", 6 + 2j), ("-1j**2", (-1j) ** 2), ("3 - 2-1j", 3 - (2 - 1j)),
     ("2**0.5", 2 ** 0.5), ("pi*2", math.pi * 2), ("sqrt(16)/2", 2.0), ("exp(log(5))", math.exp(math.log(5))),
     ("1e3/1E-3", 1e3 / 1e-3), ("007+1", 8), ("1.50*2", 3.0), ("2**3*2", 16), ("2*2**3", 16), ("-3-4", -7),
+    # results that underflow gracefully are finite values like any other (the floating-point status flags are
+    # nobody's business)
+    ("exp(-709)", math.exp(-709)), ("exp(0 - 720.5)", math.exp(-720.5)), ("1 + exp(-800)", 1.0), ("exp(-800) + 0.5", 0.5),
+    ("sinh(-20) + cosh(-20)", math.sinh(-20) + math.cosh(-20)), ("tanh(-800)", -1.0), ("exp(709.5)", math.exp(709.5)),
+    ("1e-200 * 1e-120", 1e-200 * 1e-120), ("1e-300 * 1e-300 + 2", 2.0),
 ]
 
 
